@@ -568,3 +568,10 @@ add("shift-base-recomputes-the-constant-conditionally", F, ["C16"], "dfols/model
 add("s-shift-base-update-under-a-trivial-branch", S, ["C16", "C01"], "dfols/model.py",
     "        self.model_const += np.dot(self.model_jac, xbase_shift)\n",
     "        if self.model_jac is not None:\n            self.model_const += np.dot(self.model_jac, xbase_shift)\n        else:\n            self.model_const = self.model_const + np.dot(self.model_jac, xbase_shift)\n")
+# C17-9: pre-repair form of F17b (record appended behind the unused rows of a growing set) and an equivalent spelling of the repair
+add("new-point-appended-behind-the-unused-rows", F, ["C17"], "dfols/model.py", "        self.points = np.insert(self.points, k, x, axis=0)  # new row of xpt\n",
+    "        self.points = np.append(self.points, x.reshape((1, self.n())), axis=0)  # new row of xpt\n", "C17-9")
+add("new-point-inserted-after-the-count-changed", F, ["C17"], "dfols/model.py", "        self.eval_num = np.insert(self.eval_num, k, eval_num)  # add new evaluation number\n        self.num_pts += 1  # make sure npt is updated\n        self.npt_so_far += 1\n",
+    "        self.num_pts += 1  # make sure npt is updated\n        self.npt_so_far += 1\n        self.eval_num = np.insert(self.eval_num, self.npt(), eval_num)  # add new evaluation number\n", "C17-9")
+add("s-new-point-position-read-in-place", S, ["C17", "C03", "C11", "C20", "C16"], "dfols/model.py", "        self.points = np.insert(self.points, k, x, axis=0)  # new row of xpt\n",
+    "        self.points = np.insert(self.points, self.npt(), x, axis=0)  # new row of xpt\n")
